@@ -519,6 +519,10 @@ class Hdf5Saver:
             h5gr = f(self, obj, path, type_repr)
             return h5gr
 
+        if isinstance(obj, type):
+            # a class with a metaclass other than `type` (e.g. ABCMeta) is not found in `dispatch_save`
+            return self.save_global(obj, path, REPR_CLASS)
+
         # handle classes with `save_hdf5` method
         obj_save_hdf5 = getattr(obj, 'save_hdf5', None)
         if obj_save_hdf5 is not None:  # of Hdf5Exportable type
